@@ -483,6 +483,25 @@ func runC18(c *Ctx) {
 				switch i % 8 {
 				case 0:
 					x, y = thresholdPair(r)
+					if i%16 == 0 {
+						// power-of-ten base with an integer exponent aimed at the range ends:
+						// a*y in 6100..6150 (largest representable power is 1e6144) or -6185..-6165
+						a := r.Pick(1, 1, 2, 3, -1, -1, -2, 7, 10, -10)
+						target := r.Range(6100, 6150)
+						if r.Bool() {
+							target = r.Range(-6185, -6165)
+						}
+						yv := target / a
+						if yv < 0 {
+							yv = -yv
+							a = -a
+						}
+						if yv == 0 {
+							yv = 1
+						}
+						x = cohortVariant(r, ref.Encode(r.Chance(1, 4), big.NewInt(1), a))
+						y = cohortVariant(r, ref.Encode(false, big.NewInt(int64(yv)), 0))
+					}
 				case 1:
 					x, y = r.AnyBits(), genPowY(r)
 				default:
